@@ -16,9 +16,11 @@ theorem foldl_setV_eqs (l : List Nat) (f : V → V) (s : St) :
   | nil => rfl
   | cons a l ih => simp only [List.foldl_cons]; rw [ih]; rfl
 
-theorem ite_eqs (c : Prop) [Decidable c] (a b : St) (x : List E) (ha : a.eqs = x) (hb : b.eqs = x) :
-    (if c then a else b).eqs = x := by
-  split <;> assumption
+theorem tag_eqs (comp : Nat) (ctc cvc : Bool) (s : St) (v : Nat) : (tag comp ctc cvc s v).eqs = s.eqs := by
+  simp only [tag]; split <;> rfl
+
+theorem bump_eqs (s : St) (v : Nat) (b : Bool) : (bump s v b).eqs = s.eqs := by
+  simp only [bump]; split <;> rfl
 
 theorem assign_eqs (comp : Nat) (ctc cvc : Bool) : ∀ (l : List Nat) (s : St) (acc : List Nat) (s' : St) (u : List Nat),
     assign comp ctc cvc l s acc = some (s', u) → s'.eqs = s.eqs := by
@@ -28,14 +30,10 @@ theorem assign_eqs (comp : Nat) (ctc cvc : Bool) : ∀ (l : List Nat) (s : St) (
   | cons v rest ih =>
     intro s acc s' u h
     simp only [assign] at h
-    have key : ∀ (t : St), t.eqs = s.eqs → ∀ acc', assign comp ctc cvc rest t acc' = some (s', u) → s'.eqs = s.eqs :=
-      fun t ht acc' h' => (ih t acc' s' u h').trans ht
     split at h
     all_goals first
       | (cases h; done)
-      | (refine key _ ?_ _ h
-         simp only [setV_eqs]
-         apply ite_eqs <;> rfl)
+      | (have := ih _ _ _ _ h; rw [this, bump_eqs, tag_eqs])
 
 theorem prepare_eqs (s : St) (e : E) (nla : Bool) : (prepare s e nla).1.eqs = s.eqs := by
   simp [prepare, foldl_setV_eqs]
